@@ -44,7 +44,7 @@ Test (c) exactly as coded, for a side (p1, p2) of the removed obstacle's routing
                                    [min,max] = x-range of the side;
    vertical side (p1.x = p2.x):    the same with x and y exchanged;
    otherwise a rotation by atan2/cos/sin (NOT modelled: `SidePt.rotated`, the decision is then `none`);
-   if b + d = 0 then d := −d;
+   b := |b|;  d := |d|;
    if b = 0 ∧ d = 0: if a and c are both < min or both > max then x := a else the side is skipped;
    else x := (b·c + a·d)/(b + d);
    x := min(max, max(min, x));  xp := the point of the side's line with parameter x;
@@ -128,9 +128,12 @@ def clamp (mn mx x : Rat) : Rat :=
 def rmin (a b : Rat) : Rat := if b < a then b else a
 def rmax (a b : Rat) : Rat := if a < b then b else a
 
-/-- the parameter chosen on the side's line; `none` = `continue` -/
+/-- the parameter chosen on the side's line; `none` = `continue`.  The offsets of start and end from the
+    line are taken in absolute value (`b = fabs(b); d = fabs(d);`): the detour via a point of the line depends
+    only on how far they are from it, not on which side they lie. -/
 def sideX (a b c d mn mx : Rat) : Option Rat :=
-  let d := if b + d = 0 then -d else d
+  let b := Geometry.absR b
+  let d := Geometry.absR d
   if b = 0 ∧ d = 0 then
     if (a < mn ∧ c < mn) ∨ (a > mx ∧ c > mx) then some (clamp mn mx a) else none
   else some (clamp mn mx ((b * c + a * d) / (b + d)))
@@ -156,13 +159,13 @@ def sidePoint (s t p1 p2 : Pt) : SidePt :=
 /-- which branch of the estimate one side takes (coverage statistics of the driver only) -/
 def sideBranch (s t p1 p2 : Pt) : String :=
   let go (a b c d mn mx : Rat) : String :=
-    let flip := b + d = 0
-    let d' := if flip then -d else d
-    if b = 0 ∧ d' = 0 then
+    let b' := Geometry.absR b
+    let d' := Geometry.absR d
+    if b' = 0 ∧ d' = 0 then
       (if (a < mn ∧ c < mn) ∨ (a > mx ∧ c > mx) then "on-line.outside" else "on-line.skip")
     else
-      let x := (b * c + a * d') / (b + d')
-      let side := if flip then "flip" else if (0 < b ∧ 0 < d) ∨ (b < 0 ∧ d < 0) then "same-side"
+      let x := (b' * c + a * d') / (b' + d')
+      let side := if (0 < b ∧ 0 < d) ∨ (b < 0 ∧ d < 0) then "same-side"
         else if b = 0 ∨ d = 0 then "one-on-line" else "opposite"
       side ++ (if x < mn ∨ mx < x then ".clamped" else ".inner")
   if p1.y = p2.y then go s.x (s.y - p1.y) t.x (t.y - p1.y) (rmin p1.x p2.x) (rmax p1.x p2.x)
